@@ -495,6 +495,10 @@ class PyvcExecutor(StmtMixin, Executor):
                 return True
         if isinstance(v, (Obj, bool, int, str, list, tuple, dict, Seq)) or is_sym(v) or v is None:
             return False
+        if all(nm in ("list", "dict", "tuple", "str", "int", "float", "bool", "set") for nm in names):
+            return False          # a model object is none of the builtin containers / scalars
+        if type(v).__module__.startswith("contracts.") and not isinstance(v, (ModRef, FuncRef, Opaque)):
+            return False          # a model object that does not claim the class (no `isinstance` method) is not an instance of it
         raise Undecided(f"isinstance({type(v).__name__}, {names})")
 
     # ---------------------------------------------------------------- verification of one function
